@@ -240,4 +240,36 @@ example : -- original, clone; the clone changes a filter and a template, the ori
     (w'.view 1).map (fun v => (v.store.explicit 0, v.filters 0, v.globals 1)) = some (none, some 5, none) := by
   decide
 
+/-! ## state identity: a macro belongs to the render that created it -/
+
+/-- With ONE process-wide counter, for any interleaving `ts` of renders started by any number of
+    threads: a macro stamped by the `p`-th state is refused by every other state `q ≠ p` — no
+    matter on which threads the two renders ran or what those threads rendered before. -/
+theorem foreign_macro_rejected (ts : List Nat) (p q tp ip tq iq : Nat)
+    (hp : (IdSys.init.run ts).created[p]? = some (tp, ip))
+    (hq : (IdSys.init.run ts).created[q]? = some (tq, iq)) (hne : p ≠ q) :
+    macroAccepted iq ip = false := by
+  have hinv := IdSys.run_inv ts _ IdSys.init_inv
+  have e1 := IdSys.id_eq_index _ hinv hp
+  have e2 := IdSys.id_eq_index _ hinv hq
+  subst e1; subst e2
+  simp [macroAccepted]
+  exact fun e => hne e.symm
+
+/-- … and it is accepted by its own state -/
+theorem own_macro_accepted (i : Nat) : macroAccepted i i = true := by simp [macroAccepted]
+
+example : -- three threads, five renders; the export of render 1 (thread 7) is foreign to render 3 (thread 9)
+    (IdSys.init.run [7, 7, 8, 9, 7]).created[1]? = some (7, 1) ∧
+    (IdSys.init.run [7, 7, 8, 9, 7]).created[3]? = some (9, 3) := by decide
+
+/-- Why the counter has to be process-wide (the seeded mutant C15-2): with one counter per thread
+    the first renders of two different threads get the same id, so a macro exported from one is
+    accepted by the other. -/
+theorem per_thread_counter_collides :
+    ∃ (ts : List Nat) (p q tp ip tq iq : Nat), p ≠ q ∧ tp ≠ tq ∧
+      (perThreadRun [] ts)[p]? = some (tp, ip) ∧ (perThreadRun [] ts)[q]? = some (tq, iq) ∧
+      macroAccepted iq ip = true :=
+  ⟨[0, 1], 0, 1, 0, 0, 1, 0, by decide⟩
+
 end MJ.C15
